@@ -77,6 +77,7 @@ def run(R, env):
     R.rule("C16.R3", "an unwrap of an Option that is a configuration field validation allows to be absent (oracle_address, treasury_address) is never accepted through I4")
     R.rule("C16.R4", "no explicit panic!/unreachable!/assert! is reachable from an entry point; the detector is exercised on a committed positive-control body on every run")
     R.rule("C16.R5", "division sites (multiply_ratio, Decimal::from_ratio): the denominator is a non-zero constant, or the site is unreachable in the world denominator.is_zero(), or it is in the reviewed table with its reason")
+    R.rule("C16.R6", "no product of two token amounts in 128 bits: no Uint128 Mul / MulAssign / checked_mul / pow is reachable (amounts up to 1e27 need a 256-bit intermediate: Uint128::multiply_ratio); exercised on a committed positive-control body")
     R.assume("DECLINED: freedom from arithmetic overflow and ratio range errors depends on runtime magnitudes (amounts <= 1e27, rates in [1e-3, 1e3]); the primitive-arithmetic assert sites are listed as information only")
     roots = []
     for cr in ("staking", "treasury"):
@@ -198,6 +199,25 @@ def run(R, env):
                     if how is None and (k, nm.split("::")[-1]) in RATIO_JUSTIFIED:
                         how = "justified"
                     R.ob("C16.R5", "ratio:%s" % nm.split("::")[-1] + ":" + descr(prog, den), how is not None, "%s with denominator %s: the denominator can be zero on this path (no is_zero() test of it dominates the call, not a constant, not in the reviewed table): division by zero panics" % (short(nm), fmt(den)[:120]), loc=b.loc(bi), fn=k)
+    # R6: 128-bit products of amounts
+    def is_mul128(t):
+        nm = call_name(t) or ""
+        res = t.get("resolved") or ""
+        if nm in ("std::ops::Mul::mul", "std::ops::MulAssign::mul_assign") and "cosmwasm_std::Uint128" in res.split(" as ")[0]:
+            return True
+        return nm in ("cosmwasm_std::Uint128::checked_mul", "cosmwasm_std::Uint128::pow", "cosmwasm_std::Uint128::checked_pow", "cosmwasm_std::Uint128::wrapping_mul", "cosmwasm_std::Uint128::saturating_mul", "cosmwasm_std::Uint128::full_mul") and nm != "cosmwasm_std::Uint128::full_mul"
+    muls = []
+    for k in bodies:
+        b = prog.bodies[k]
+        for bi, t in b.calls():
+            if is_mul128(t):
+                muls.append((k, b.loc(bi), call_name(t)))
+    for k, loc, nm in muls:
+        R.ob("C16.R6", "uint128-product", False, "%s on Uint128: the product of two amounts within the property's bounds (1e27 each) does not fit 128 bits and panics; use multiply_ratio (256-bit intermediate)" % short(nm), loc=loc, fn=k)
+    R.ob("C16.R6", "no-uint128-product", not muls, "%d 128-bit products of amounts" % len(muls), fn="entry points")
+    fxm = json.load(open(os.path.join(VERIF, "fixtures", "mul_body.json")))
+    fbm = Body(prog, "fixture", fxm)
+    R.ob("C16.R6", "positive-control", len([1 for _, t in fbm.calls() if is_mul128(t)]) == 1, "the 128-bit-product detector did not fire on the committed control body", fn="fixtures/mul_body.json")
     R.floor("C16.R1", "unwrap / index / bounds sites inspected", nsites, 30)
     R.call_sites += nsites
     stale = set(JUSTIFIED) - used_just
